@@ -1,14 +1,16 @@
 import SmtpV.Props.DataMonitor
 import SmtpV.Proofs.SizeLimit
 import SmtpV.Proofs.BdatGrow
+import SmtpV.Proofs.AcctInv
+import SmtpV.Props.C03
 /-!
 # C06 — MaxMessageBytes bounds what a backend is handed and what is accepted (DATA reader part)
 
 The over-limit BDAT chunk and the declared SIZE follow below, on the server model (`Proofs/BdatLimit.lean`, `SizeLimit.lean`);
-the accounting across several chunks is decided by monitors and the correspondence.
+the accounting across chunks, transactions and the whole connection is `C06_no_delivery_over_limit` (`Proofs/AcctInv.lean`).
 -/
 namespace SmtpV.Props.C06
-open SmtpV SmtpV.Spec SmtpV.DataReader
+open SmtpV SmtpV.Spec SmtpV.DataReader SmtpV.Server
 
 /-- **C06_bound_data.**  With limit `n`, whatever the input (terminated or not, hostile or not) and
     whatever the read sizes, the backend is handed at most `n` octets. -/
@@ -87,5 +89,27 @@ theorem C06_accepted_chunk_bounded (s : S) (size : Nat) (last : Bool) :
   have := grow_bdatChunk s size last j
   have := h j
   omega
+
+/-- **C06_no_delivery_over_limit.**  On every connection of the server model with a size limit `N` configured — all inputs and
+    segmentations, all backend behaviours, DATA and BDAT in any mixture, any number of chunks and transactions, transfers that
+    complete, fail or are abandoned — no `Data`/`LMTPData` call is ever handed more than `N` message octets. -/
+theorem C06_no_delivery_over_limit (s : S) (h : Props.C03.Fresh s) (hd : s.drecs = []) (hb : s.c.bytesReceived = 0)
+    (hm : s.cfg.maxMsg > 0) (j : Nat) (d : DRec) (hj : (serve s).drecs[j]? = some d) :
+    d.octets.length ≤ s.cfg.maxMsg := by
+  have h0 : Acct s := ⟨fun _ j => by simp [octLen, hd], fun _ => by omega, fun k hk => by rw [h.bdat] at hk; cases hk⟩
+  have h1 := acct_serve s h0
+  have hcfg := (serve_good (Props.C03.fresh_good s h)).2.1
+  have := h1.all (by rw [hcfg]; exact hm) j
+  rw [hcfg] at this
+  simpa [octLen, hj] using this
+
+/-- the hypotheses are those of a new connection with a limit configured -/
+example : Props.C03.Fresh ({ cfg := { maxMsg := 5 } } : S) ∧ ({ cfg := { maxMsg := 5 } } : S).drecs = [] ∧
+    ({ cfg := { maxMsg := 5 } } : S).c.bytesReceived = 0 ∧ ({ cfg := { maxMsg := 5 } } : S).cfg.maxMsg > 0 :=
+  ⟨⟨rfl, rfl, rfl, rfl, rfl, rfl, rfl, rfl⟩, rfl, rfl, by decide⟩
+
+/-- the invariant behind it, for use at any point of a connection: every delivery within the limit, the running total of accepted
+    chunk sizes within the limit, the running transfer's delivery within that total -/
+theorem C06_accounting_invariant (s : S) (h : Acct s) : Acct (serve s) := acct_serve s h
 
 end SmtpV.Props.C06
